@@ -233,7 +233,7 @@ func renderCall(b *binder, callee string, args []SV, hasSpread bool, spread *SV)
 	if hasSpread {
 		s, v := b.render(spread)
 		spreadV = v
-		if spread.K != "l" && spread.K != "g" {
+		if spread.K != "l" && spread.K != "g" && spread.Hop == "" {
 			// `5...` does not lex; bind anything that is not a list literal or a variable
 			pre = append(pre, "sp = "+s)
 			s = "sp"
@@ -301,6 +301,14 @@ func callOracle(c CallCase, o *h.Obs) *h.Fail {
 	o.Class("calls:nres:%d", len(c.Out))
 	o.Class("calls:nparams:%d", ft.NumIn())
 	o.Class("calls:route:" + c.Route)
+	if c.HasSpread && c.Spread.Hop != "" {
+		o.Class("calls:spread-hop:%s:%s:%s", c.Spread.Hop, p.shape, p.out)
+	}
+	for i := range c.Args {
+		if c.Args[i].Hop != "" {
+			o.Class("calls:arg-hop:" + c.Args[i].Hop)
+		}
+	}
 	if p.why != "" {
 		w := p.why
 		if i := strings.Index(w, ":"); i >= 0 && strings.HasPrefix(w, "unasserted") {
@@ -317,6 +325,7 @@ func callOracle(c CallCase, o *h.Obs) *h.Fail {
 		return nil
 	}
 	e := env.NewEnv()
+	e.Define("id", func(a interface{}) interface{} { return a })
 	e.Define("f", rec.fn(ft).Interface())
 	defineAll(e, b)
 	got, err := ank.Exec(e, src)
@@ -393,6 +402,8 @@ func TestC11(t *testing.T) {
 	h.Run(c, "calls", c.N(100000, 400000), genCallCase, callOracle)
 	c.Rule("members: struct pool value S reached by value, by pointer, as addressable slice element, as map value, inside a script list, through a pointer field; field read, field write (value aimed at the field type), method call (8 value-receiver and 4 pointer-receiver methods incl. variadic and multi-result, arguments as in calls, also through a bound method value), unknown member; reference = Go's own field access / method call on a copy with goConvert'ed parameters; non-trivial = everything except a plain field read on a by-value receiver")
 	h.Run(c, "members", c.N(40000, 160000), genMemCase, memOracle)
+	c.Rule("history: 2-3 values of struct types that share the field names A,B,C,D,E at different positions (4 unnamed struct literals, 3 reflect.StructOf types, 3 function-local types all named P, script-made make(struct{...}) with drawn field order), bound by pointer or by value; 2-4 member reads/writes in drawn order (the same field name is preferred on consecutive steps), every read judged against Go's own field access on a reference copy, final states compared; non-trivial = at least two distinct struct types in the history")
+	h.Run(c, "history", c.N(20000, 80000), genHistCase, histOracle)
 	c.Rule("callbacks: script function (fixed arity, variadic, wrong arity) passed where a MakeFunc host expects func(T1..Tn)(R1..Rm), n<=3, m<=2; host invokes it 1-2 times with pool values; the function reports its parameters to a Go recorder and returns literals / its own parameters / wrong counts, throws or hits a runtime error; with and without try/catch around the enclosing call; all cases non-trivial")
 	h.Run(c, "callbacks", c.N(40000, 160000), genCbCase, cbOracle)
 	c.Rule("identity: Go pool value (46 types x seeds) bound to x and read back through 0-4 of: list element, map member/index, Go id(x), Go variadic idv, script identity functions (fixed, 2-ary, variadic, list-returning), variable, multi-assignment, ternary, parentheses; non-trivial = at least one step; distinct by (type, seed, source)")
